@@ -1,8 +1,8 @@
 #!/bin/bash
 # run the check of the broken property against every kept seed; writes /verif/seeded/RESULTS.md
 cd /verif
-out=seeded/RESULTS.tmp; : > $out
-for d in /verif/seeded/C*-*/; do
+out=seeded/${RESULTFILE:-RESULTS}.tmp; : > $out
+for d in /verif/seeded/${SEEDGLOB:-C*-*}/; do
   id=$(basename $d); prop=${id%%-*}
   git -C /repo apply --check $d/patch.diff 2>/dev/null || { echo "$id | does not apply" >> $out; continue; }
   git -C /repo apply $d/patch.diff
@@ -12,4 +12,4 @@ for d in /verif/seeded/C*-*/; do
   first=$(echo "$res" | grep -E '^(VIOLATION|UNDECIDED|CHECKER)' | head -1 | sed -E 's/.*obligation=([^ ]+).*/\1/' | cut -c1-110)
   echo "$id | exit=$rc | violations=$v (without input: $nf) | $first" >> $out
 done
-mv $out seeded/RESULTS.md; cat seeded/RESULTS.md
+mv $out seeded/${RESULTFILE:-RESULTS}.md; cat seeded/${RESULTFILE:-RESULTS}.md
